@@ -220,6 +220,12 @@ def build_api_tx(rng, network='bitcoin', kinds=None, nin=None, nout=None, max_n=
     def rk():
         return Key(rng.randrange(2**rng.choice([64, 200, 254]), 2**255), network=network)    # distinct with overwhelming probability
 
+    def with_spk(spk):
+        # the documented use of `locking_script`: the scriptPubKey of the output being spent (given for some inputs)
+        if rng.random() < 0.35:
+            return {'locking_script': spk}
+        return {}
+
     def pub(k):
         # the input only knows the public key when public_only is set; private keys are supplied to sign()
         return Key(k.public_byte, network=network, compressed=k.compressed) if public_only else k
@@ -235,15 +241,15 @@ def build_api_tx(rng, network='bitcoin', kinds=None, nin=None, nout=None, max_n=
             k = rk()
             if kind == 'p2pkh_unc':
                 k = Key(k.secret, compressed=False, network=network)
-            t.add_input(txid, n, keys=[pub(k)], script_type='sig_pubkey', sequence=seq, value=val, witness_type='legacy',
-                        compressed=k.compressed)
-            keys = [k]
             sc = b'\x76\xa9\x14' + _h160(k.public_byte) + b'\x88\xac'
+            t.add_input(txid, n, keys=[pub(k)], script_type='sig_pubkey', sequence=seq, value=val, witness_type='legacy',
+                        compressed=k.compressed, **with_spk(sc))
+            keys = [k]
             meta.append(dict(kind=kind, wt='legacy', sc=sc, val=val, keys=keys, m=1, spk=sc))
         elif kind == 'p2pk':
             k = rk()
-            t.add_input(txid, n, keys=[pub(k)], script_type='signature', sequence=seq, value=val, witness_type='legacy')
             sc = vs(k.public_byte) + b'\xac'
+            t.add_input(txid, n, keys=[pub(k)], script_type='signature', sequence=seq, value=val, witness_type='legacy', **with_spk(sc))
             meta.append(dict(kind=kind, wt='legacy', sc=sc, val=val, keys=[k], m=1, spk=sc))
         elif kind in ('p2sh_ms', 'p2wsh_ms', 'p2sh_p2wsh_ms'):
             nk = rng.randrange(1, max_n + 1)
@@ -263,12 +269,14 @@ def build_api_tx(rng, network='bitcoin', kinds=None, nin=None, nout=None, max_n=
             meta.append(dict(kind=kind, wt='legacy' if kind == 'p2sh_ms' else 'segwit', sc=rs, val=val, keys=ks_sorted, m=m, spk=spk))
         elif kind == 'p2wpkh':
             k = rk()
-            t.add_input(txid, n, keys=[pub(k)], script_type='sig_pubkey', sequence=seq, value=val, witness_type='segwit')
+            t.add_input(txid, n, keys=[pub(k)], script_type='sig_pubkey', sequence=seq, value=val, witness_type='segwit',
+                        **with_spk(b'\x00\x14' + _h160(k.public_byte)))
             sc = b'\x76\xa9\x14' + _h160(k.public_byte) + b'\x88\xac'
             meta.append(dict(kind=kind, wt='segwit', sc=sc, val=val, keys=[k], m=1, spk=b'\x00\x14' + _h160(k.public_byte)))
         elif kind == 'p2sh_p2wpkh':
             k = rk()
-            t.add_input(txid, n, keys=[pub(k)], script_type='p2sh_p2wpkh', sequence=seq, value=val, witness_type='p2sh-segwit')
+            t.add_input(txid, n, keys=[pub(k)], script_type='p2sh_p2wpkh', sequence=seq, value=val, witness_type='p2sh-segwit',
+                        **with_spk(b'\xa9\x14' + _h160(b'\x00\x14' + _h160(k.public_byte)) + b'\x87'))
             sc = b'\x76\xa9\x14' + _h160(k.public_byte) + b'\x88\xac'
             meta.append(dict(kind=kind, wt='segwit', sc=sc, val=val, keys=[k], m=1,
                              spk=b'\xa9\x14' + _h160(b'\x00\x14' + _h160(k.public_byte)) + b'\x87'))
